@@ -326,6 +326,21 @@ def same_answer(jedi_list, py):
     return j == py
 
 
+def through_importer(pkg, modname, q):
+    """does the absolute dotted name of the import start with the importer's own module name
+    (the one entry Script._get_module puts into module_cache)?"""
+    if not modname:
+        return False
+    names = list(q['names']) + ([q['from_name']] if q.get('from_name') else [])
+    if q['level']:
+        base = pkg.split('.') if pkg else []
+        if q['level'] > len(base):
+            return False
+        names = base[:len(base) - (q['level'] - 1)] + names
+    own = modname.split('.')
+    return names[:len(own)] == own
+
+
 # ----------------------------------------------------------------- stream: trees
 
 def run_python_oracle(queries):
@@ -348,6 +363,10 @@ def fixed_trees():
                                               'r1/zqa/__init__.py': ''},
          'dirs': ['r1', 'r1/zqa'], 'classes': {'r1/zqb.py': ['K1'], 'r1/zqa/zqb.py': ['K2'],
                                                'r1/zqa/__init__.py': []}, 'tag': 'nested-roots'},
+        # the shortest candidate is the right one here: zqa.py shadows the directory zqa, so only `zqb` imports
+        {'roots': ['r1/zqa', 'r1'], 'files': {'r1/zqa.py': k, 'r1/zqa/zqb.py': k.replace('K1', 'K2')},
+         'dirs': ['r1', 'r1/zqa'], 'classes': {'r1/zqa.py': ['K1'], 'r1/zqa/zqb.py': ['K2']},
+         'tag': 'nested-roots-shortest-right'},
     ]
 
 
@@ -446,7 +465,8 @@ def stream_trees(ctx, reqs, sc):
                       'names': q['names'], 'from_name': q['from_name'], 'star_name': q.get('star_name')}
                 pending.append((pq, {'kind': 'resolve', 'spec': spec, 'base': base, 'form': q['form'],
                                      'level': q['level'], 'infer': got_infer, 'goto': got_goto,
-                                     'toplevel': pkg is None, 'importer_id': (ti, loc)}))
+                                     'toplevel': pkg is None, 'importer_id': (ti, loc),
+                                     'through_importer_name': through_importer(pkg, modname, q)}))
     # one clean interpreter answers every query while the files still exist
     answers = run_python_oracle([q for q, _ in pending])
     judge(ctx, pending, answers)
@@ -472,7 +492,7 @@ def judge(ctx, pending, answers):
             # the analysed file is not the module Python loads under the file's own dotted name
             # (an earlier sys.path entry / a package of the same name shadows it)
             case = {'form': rec['form'], 'importer_shadowed': shadowed.get(rec['importer_id'], False),
-                    'spec': spec}
+                    'through_importer_name': rec['through_importer_name'], 'spec': spec}
             bucket = rec['form'] + ('/rel%d' % rec['level'] if rec['level'] else '') + \
                 ('/script' if rec['toplevel'] else '/inpkg')
             if 'error' in py:
